@@ -97,6 +97,7 @@ type spec struct {
 	ZeroAt       int    `json:"z"`  // offset before which exactly one (0,nil) read is inserted; -1 none
 	ZeroBudget   int    `json:"zb"` // tape-placed (0,nil) reads
 	Second       bool   `json:"2"`  // a second call with the same codec instance (alias check)
+	ErrKind      int    `json:"ek"` // which error value the failing reader returns: 0 a private one, 1 io.ErrUnexpectedEOF, 2 one that wraps io.EOF
 }
 
 type kindInfo struct {
@@ -171,6 +172,7 @@ func drawSpec(t *kernel.Tape) spec {
 		sp.ReadErr, sp.WriteErr = offDraw, offDraw
 	}
 	sp.Second = t.Choose(3, "second-call") == 1
+	sp.ErrKind = t.Weighted("read-error-value", 3, 1, 1)
 	return sp
 }
 
@@ -306,6 +308,15 @@ func (c *run) newInput(name, tag string, full []byte, closable bool) *input {
 	if off := pickOff(c.tape, sp.ReadErr, len(full), "read-error-offset"); off >= 0 {
 		st.Data = full[:off]
 		st.Term = &kernel.InjectedError{What: fmt.Sprintf("read error at %d", off)}
+		switch sp.ErrKind {
+		case 1:
+			// what net/http's body reader returns when the peer sent fewer bytes than it announced
+			st.Term = io.ErrUnexpectedEOF
+			c.env.Fault("read-error-is-io.ErrUnexpectedEOF")
+		case 2:
+			st.Term = fmt.Errorf("connection reset before the end: %w", io.EOF)
+			c.env.Fault("read-error-wraps-io.EOF")
+		}
 		in.faulty = true
 	}
 	st.TermWithData = sp.TermWithData
